@@ -411,13 +411,38 @@ def main():
         os.makedirs(os.path.dirname(path), exist_ok=True)
         json.dump({"property": "C14", "what": "mul_by_a(x) differs from a*x mod p (Python integers) at structured field elements", "x": [str(x) for x, _ in native_bad[:8]], "got": [str(y) for _, y in native_bad[:8]], "expected": [str((a * x) % p) for x, _ in native_bad[:8]], "cmd": "%s zorro-mul-by-a %s" % (SYMARK, " ".join(str(x) for x, _ in native_bad[:8]))}, open(path, "w"), indent=1)
         violations.append(("mul_by_a(x) = a*x mod p on %d structured elements (native, against integer arithmetic): %d differ, first x = %d" % (native_checked, len(native_bad), native_bad[0][0]), path))
+    # second concrete companion: group elements with structured x coordinates (0, small integers, -1, 1/2, 1/4, 2^255 mod p,
+    # the generator) are accepted by every validating path (curve equation, subgroup test, checked decoding, constructor)
+    # and have order exactly r -- "the group of points has exactly r elements" must not lose individual elements
+    pxs = sorted(set(list(range(0, 40)) + [p - 1, p - 2, p - 3, (p + 1) // 2, pow(4, -1, p), (1 << 255) % p, ((1 << 256) % p), rinv % p, (2 * rinv) % p, (seed * 7919 + 11) % p]))
+    rp2 = sh([SYMARK, "zorro-points"] + [str(x) for x in pxs])
+    pts_lines = [l for l in rp2.stdout.split("\n") if l.startswith("point ")]
+    pts_wrong = [l for l in pts_lines if l.rstrip().endswith("WRONG")]
+    points_checked = len(pts_lines)
+    if rp2.returncode not in (0, 1) or points_checked < 10:
+        # find the x the command dies on
+        dead = []
+        for x in pxs:
+            r1 = sh([SYMARK, "zorro-points", str(x)])
+            if r1.returncode not in (0, 1):
+                dead.append(str(x))
+            pts_wrong += [l for l in r1.stdout.split("\n") if l.startswith("point ") and l.rstrip().endswith("WRONG")]
+        if dead:
+            pts_wrong.append("the validating paths abort / panic for x in %s" % dead[:6])
+        elif points_checked < 10:
+            inconclusive.append("zorro-points returned %d points" % points_checked)
+    if pts_wrong:
+        path = os.path.join(VERIF, "replays", "C14", "points.json")
+        os.makedirs(os.path.dirname(path), exist_ok=True)
+        json.dump({"property": "C14", "what": "genuine points of the curve are refused (or mishandled) by a validating path", "lines": pts_wrong[:8], "cmd": "%s zorro-points %s" % (SYMARK, " ".join(str(x) for x in pxs[:12]))}, open(path, "w"), indent=1)
+        violations.append(("every point with a structured x coordinate is a group element of order r accepted by all validating paths: %s" % pts_wrong[0][:200], path))
     wall = time.time() - t0
     ev = {
         "property_id": "C14", "tier": tier, "seed": seed, "level": "model_checking",
         "coverage": {
             "evaluations": len(queries) * len(SOLVERS), "distinct_nontrivial": len(queries),
             "rule": "one obligation = one SMT query (integer arithmetic mod p) discharged by three solvers; the mul_by_a query quantifies over every field element, the others are ground relations over the constants exported by the compiled crate",
-            "samples": results[:4], "native_structured_elements": native_checked, "native_structured_differ": len(native_bad),
+            "samples": results[:4], "native_structured_elements": native_checked, "native_points_checked": points_checked, "native_structured_differ": len(native_bad),
             "states": max(1, n_paths), "transitions": max(1, len(queries)), "traces_validated_against_impl": native_checked,
             "states_rule": "states = paths of the MIR body of mul_by_a (and of an overridden add_b) that were translated; transitions = SMT obligations; traces validated = structured field elements on which the real routine was evaluated natively and compared with a*x mod p in integer arithmetic",
             "obligations": len(obligations), "discharged": sum(1 for o in obligations if o),
